@@ -97,6 +97,8 @@ class FsScenario(Scenario):
         faults = {}
         if frng.random() < 0.5:
             faults["short_read"] = [frng.choice([32, 48, 64, 96, 300, 0]) for _ in range(frng.randrange(1, 5))]
+        if frng.random() < 0.08:
+            faults["overflow_marks"] = sorted({frng.randrange(0, 10) for _ in range(frng.choice([1, 2]))})
         sched = draw_sched(cfg, line=cfg.random() < self.line_share, pct_k=3000, step_cap=400_000, horizon=3600, pct_share=0.15)
         if sched.get("p_line", 0) > 0.05:
             sched["p_line"] = 0.02
